@@ -85,9 +85,10 @@ func observeLoop(prop string, c *Case, cov *Cov) []*Violation {
 			if cov != nil {
 				cov.Probe("block-points")
 			}
+			held := heldAt(s, del)
 			for nextJunk < len(s.Lines) && s.Lines[nextJunk].End <= del {
 				l := s.Lines[nextJunk]
-				if l.Class == gen.Junk && !l.Blank && l.Term && !isRaceLook(b[l.Start:l.End]) {
+				if l.Class == gen.Junk && !l.Blank && l.Term && !held[nextJunk] {
 					i := bytes.Index(w.Buf[wpos:], b[l.Start:l.End])
 					if i < 0 {
 						add("withheld-line", "", fmt.Sprintf("the input source blocks after %d bytes; the complete pass-through line %s (bytes %d..%d) was delivered but has not been written to the output (%d bytes written so far, ends with %s)", del, Clip(b[l.Start:l.End], 80), l.Start, l.End, len(w.Buf), Clip(lastBytes(w.Buf, 60), 60)))
@@ -517,6 +518,7 @@ func observeInvalid(c *Case, cov *Cov) []*Violation {
 // RunC11: producer pauses.
 func RunC11(r *core.Rng, run, seed uint64, tier string, cov *Cov) []*Violation {
 	cfg := gen.DefaultCfg(r)
+	cfg.ExactRaceSep, cfg.NoWarnAfterSep = r.Chance(0.2), r.Chance(0.7)
 	if cfg.MaxJunk < 2 {
 		cfg.MaxJunk = 2
 	}
@@ -556,7 +558,7 @@ func init() {
 		Posts: []func(uint64, string, *Cov) ([]*Violation, map[string]any, error){postCLI("C11"), postPPDrive("C11")},
 		Quick: 12000, Thorough: 400000,
 		Rule:        "one evaluation = the resume loop over one generated stream under one producer schedule; at EVERY block point (a Read that finds nothing available, observed inside that Read) every complete pass-through line delivered so far must already be in the writer, and every dump whose terminating line has been delivered completely must already have been returned; schedules: one-shot, byte-wise, line-by-line, seeded chunkings attracted to line ends with zero/short reads; distinct_nontrivial as C02; probes.block-points counts the observation points",
-		Assumptions: []string{"exact race-header look-alike lines are exempt (the statement's one-line look-ahead slack; their loss is KF-1 under C02)", "blank lines are not required at block points (C02 accounts for them at the end)", "for a race report the terminating line is taken to be the line after the closing separator (weaker than what the code does, never stronger than the statement)"},
+		Assumptions: []string{"race header lines ('==================', then 'WARNING: DATA RACE') may be pending only while they are the last complete lines delivered (the statement's one-line look-ahead); every other complete pass-through line must be written", "blank lines are not required at block points (C02 accounts for them at the end)", "for a race report the terminating line is taken to be the line after the closing separator (weaker than what the code does, never stronger than the statement)"},
 		Real:        real, Stubs: stubs,
 	})
 }
@@ -592,6 +594,33 @@ func kf1Tail(s *gen.Stream) map[int]bool {
 	}
 	if n >= 2 && isJunk(n-1) && isJunk(n-2) && text(n-1) == "WARNING: DATA RACE" && text(n-2) == "==================" {
 		out[n-1], out[n-2] = true, true
+	}
+	return out
+}
+
+// heldAt returns the lines that may legitimately still be pending when the
+// producer blocks after del bytes: the statement's one-line look-ahead. These
+// are the race header lines ('==================', then 'WARNING: DATA RACE')
+// that are the LAST complete lines delivered so far - nothing has arrived yet
+// that shows whether a report follows. Every other complete pass-through line
+// must have been written.
+func heldAt(s *gen.Stream, del int) map[int]bool {
+	out := map[int]bool{}
+	last := -1
+	for i, l := range s.Lines {
+		if l.Term && l.End <= del {
+			last = i
+		} else {
+			break
+		}
+	}
+	text := func(i int) string { return string(bytes.TrimRight(s.Text(i), "\r\n")) }
+	junk := func(i int) bool { return i >= 0 && s.Lines[i].Class == gen.Junk }
+	if last >= 0 && junk(last) && text(last) == "==================" {
+		out[last] = true
+	}
+	if last >= 1 && junk(last) && junk(last-1) && text(last) == "WARNING: DATA RACE" && text(last-1) == "==================" {
+		out[last], out[last-1] = true, true
 	}
 	return out
 }
